@@ -111,6 +111,19 @@ def flows(facts, b, e, env, depth=0):
         out |= flows(facts, b, e["args"][0], env, depth + 1)
     elif k in ("Borrow", "Deref"):
         out |= flows(facts, b, e["e"], env, depth + 1)
+    elif k == "Call" and callee(e) in ("core::bool::<impl bool>::then", "core::option::Option::<T>::map", "core::option::Option::<T>::map_or",
+                                       "core::option::Option::<T>::or_else", "core::option::Option::<T>::and_then") and len(e["args"]) >= 2:
+        clo = strip(e["args"][-1])
+        if clo.get("k") == "Closure":
+            cb = facts.body(clo["closure"])
+            if cb is not None:
+                _, t = closure_tail(facts, cb)
+                if t is not None:
+                    out |= flows(facts, cb, t, dict(env, **let_inits(facts.root(cb))), depth + 1)
+    elif k == "Call" and callee(e) == "core::bool::<impl bool>::then_some" and len(e["args"]) == 2:
+        out |= flows(facts, b, e["args"][1], env, depth + 1)
+    elif k in ("Cast", "PointerCoercion"):
+        out |= flows(facts, b, e["e"], env, depth + 1)
     return out
 
 
@@ -200,6 +213,16 @@ def slot_form(e, tvar):
         if idx is not None and _is_none(th) and _is_some(el):
             return ("inverted", idx, el["fields"][0]["e"])
         return ("other-if", None, None)
+    if e.get("k") == "Call" and callee(e) in ("core::bool::<impl bool>::then", "core::bool::<impl bool>::then_some") and len(e["args"]) == 2:
+        cond = peel(e["args"][0])
+        idx = None
+        if cond.get("k") == "Index" and var_of(cond["e"]) == tvar:
+            idx = lit_value(cond["i"])
+        elif cond.get("k") == "Call" and callee(cond) == "core::ops::index::Index::index" and var_of(cond["args"][0]) == tvar:
+            idx = lit_value(cond["args"][1])
+        if idx is not None:
+            return ("gated", idx, e["args"][1])
+        return ("other-if", None, None)
     if _is_some(e):
         return ("some", None, e["fields"][0]["e"])
     if _is_none(e):
@@ -239,6 +262,20 @@ def closure_slots(facts, b):
         t = strip(env[var_of(t)])
         n += 1
     elems = vec_literal_elems(t)
+    if elems is None and var_of(tail) and strip(tail).get("k") == "VarRef" and t.get("k") == "Call" \
+            and callee(t) in ("alloc::vec::Vec::<T>::new", "alloc::vec::Vec::<T>::with_capacity"):
+        # a vector built by pushing the slots one after the other (straight-line statements only)
+        v = var_of(tail)
+        pushes = []
+        clean = True
+        for s_ in stmts:
+            e_ = strip(s_.get("e")) if s_["s"] == "expr" else None
+            if e_ is not None and e_.get("k") == "Call" and callee(e_) == "alloc::vec::Vec::<T, A>::push" and var_of(e_["args"][0]) == v:
+                pushes.append(e_["args"][1])
+            elif e_ is not None and any(x.get("k") in ("VarRef", "UpvarRef") and x["v"] == v for x in walk(e_)):
+                clean = False
+        if clean and pushes:
+            elems = pushes
     if elems is None:
         return None, None, "the closure's result is not a vec![..] literal: %s" % show(t)[:100]
     # slots bound to lets first
@@ -292,8 +329,16 @@ def r9_slot_arity_and_gate(facts):
         parent = facts.body(b["root"])
         # the closure may be nested directly in the constructor only
         if b["parent"] != b["root"]:
-            c.unk(inst + "#arity", where, "backward closure nested inside another closure")
-            continue
+            # allowed when the enclosing closures are plain (e.g. `cond.then(|| Rc::new(move |c, t, x| ..))`)
+            pb = facts.body(b["parent"])
+            nested_in_backward = False
+            while pb is not None and pb["kind"] == "Closure":
+                if F.is_backward_closure(pb):
+                    nested_in_backward = True
+                pb = facts.body(pb["parent"])
+            if nested_in_backward:
+                c.unk(inst + "#arity", where, "backward closure nested inside another backward closure")
+                continue
         ar = attached_arity(facts, parent, ("closure", b["def"]))
         if not ar:
             c.unk(inst + "#arity", where, "cannot find where the closure is attached in %s" % parent["def"])
